@@ -117,12 +117,16 @@ impl FeoxStore {
             }
             source = source.value_source().ok_or(FeoxError::StaleExtent)?;
         }
+        #[cfg(feoxdb_verif)]
+        crate::verif::sched::point("read_start");
         let extent = source.acquire_extent().ok_or(FeoxError::StaleExtent)?;
         let sector = source.sector.load(Ordering::Acquire);
         if self.memory_only || sector == 0 {
             return Err(FeoxError::StaleExtent);
         }
         crate::test_hooks::pause_at(crate::test_hooks::AFTER_SECTOR_LOAD);
+        #[cfg(feoxdb_verif)]
+        crate::verif::sched::point("read_pinned");
 
         // Get the appropriate format handler
         let format = get_format_ref(self.format_version);
